@@ -318,6 +318,10 @@ OnFinal(ev, T, Y) ==
 StepOf(ev, T, Y) ==
   CASE ev.ev = "start" -> Res(T, [Y EXCEPT !.pend = Put(@, ev.e, [items |-> ev.items]), !.kinds = Put(@, ev.e, ev.kind)], "", "")
     [] ev.ev = "e_cancel" -> Res(T, [Y EXCEPT !.canc = @ \cup {ev.e}], "", "")
+    \* a binding callback (Session.Bind / Batch.Bind) was handed prepared metadata: it must be an id and the
+    \* bind markers of THAT statement
+    [] ev.ev = "e_bound" -> Res(T, Y, IF ~ev.idok \/ ev.id.k[3] # ev.s \/ ev.nargs # TArity[ev.s]
+                                       THEN "BindMetaMismatch" ELSE "", "")
     [] ev.ev = "n_execute" -> OnExecute(ev, T, Y)
     [] ev.ev = "n_exec_reply" -> OnExecReply(ev, T, Y)
     [] ev.ev = "e_end" -> OnEnd(ev, T, Y)
